@@ -284,7 +284,7 @@ pub fn generate(rng: &mut Rng, tier: Tier) -> Plan {
                 }
             }
             let mut ops: Vec<Op> = (0..rng.usize_in(0, 2))
-                .map(|_| Op::Combine(rng.below(4) as u8))
+                .map(|_| Op::Combine(rng.below(6) as u8))
                 .collect();
             insert_restarts(rng, &mut ops, true);
             Plan {
@@ -380,10 +380,10 @@ pub fn generate(rng: &mut Rng, tier: Tier) -> Plan {
                 pv.push(("extra_var".into(), Fx::new(f(rng))));
             }
             let mut ops: Vec<Op> = (0..rng.usize_in(1, 4))
-                .map(|_| Op::Combine(rng.below(4) as u8))
+                .map(|_| Op::Combine(rng.below(6) as u8))
                 .collect();
             insert_restarts(rng, &mut ops, true);
-            ops.push(Op::Combine(rng.below(4) as u8));
+            ops.push(Op::Combine(rng.below(6) as u8));
             Plan {
                 obj: ObjSpec::Number {
                     x,
@@ -404,6 +404,11 @@ pub fn generate(rng: &mut Rng, tier: Tier) -> Plan {
                 c.mask = (0..7u8).collect();
                 rng.shuffle(&mut c.mask);
             }
+            let c = if rng.chance(0.04) {
+                builtin_as_spec(*rng.pick(&["tgt", "nyc", "ldn", "fed"])).unwrap_or(c)
+            } else {
+                c
+            };
             let probes = probe_dates(rng, &[&c]);
             let probes_exact = exact_probes(rng, &[&c]);
             let mut ops = vec![];
@@ -484,6 +489,13 @@ pub fn generate(rng: &mut Rng, tier: Tier) -> Plan {
                 setup.nodes.truncate(if rng.chance(0.25) { 0 } else { 1 });
             }
             let cal = match (&setup.ctor, rng.below(3)) {
+                // a plain calendar that is an exact copy of a built-in one
+                (c12::Ctor::Py { .. }, 0) if rng.chance(0.15) => {
+                    match builtin_as_spec(*rng.pick(&["tgt", "nyc", "ldn", "stk", "fed", "bus", "all"])) {
+                        Some(spec) => CalChoice::Cal(spec),
+                        None => CalChoice::Named("tgt".into()),
+                    }
+                }
                 (c12::Ctor::Py { .. }, 0) => {
                     let w = rng.below(7) as u8;
                     CalChoice::Cal(gen_cal(rng, w, 30))
@@ -1785,9 +1797,38 @@ fn apply_op(o: &mut Obj, op: &Op, results: &mut Vec<(String, u64)>) -> Outcome {
                     0 => a + b,
                     1 => a - b,
                     2 => a * b,
+                    4 => a % b,
                     _ => a / b,
                 }
             };
+            // re-expressing one number on the other's variable list (what every binary
+            // operation does first), asked for directly
+            if *code == 5 {
+                use rateslib::dual::Vars;
+                let relinked: Vec<(&str, Option<Number>)> = match (x, y) {
+                    (Number::Dual(a), Number::Dual(b)) => vec![
+                        ("X on Y's variables", Some(Number::Dual(a.to_new_vars(b.vars(), None)))),
+                        ("Y on X's variables", Some(Number::Dual(b.to_new_vars(a.vars(), None)))),
+                        ("union, X part", Some(Number::Dual(a.to_union_vars(b, None).0))),
+                        ("union, Y part", Some(Number::Dual(b.to_union_vars(a, None).0))),
+                    ],
+                    (Number::Dual2(a), Number::Dual2(b)) => vec![
+                        ("X on Y's variables", Some(Number::Dual2(a.to_new_vars(b.vars(), None)))),
+                        ("Y on X's variables", Some(Number::Dual2(b.to_new_vars(a.vars(), None)))),
+                        ("union, X part", Some(Number::Dual2(a.to_union_vars(b, None).0))),
+                        ("union, Y part", Some(Number::Dual2(b.to_union_vars(a, None).0))),
+                    ],
+                    _ => vec![],
+                };
+                for (label, r) in relinked {
+                    if let Some(r) = r {
+                        let mut h = Fnv::new();
+                        digest_number(&mut h, &r);
+                        results.push((label.to_string(), h.finish()));
+                    }
+                }
+                return Outcome::Ok;
+            }
             for (label, r) in [("X op Y", f(x, y)), ("Y op X", f(y, x)), ("X op X", f(x, x))] {
                 if finite_number(&r) {
                     let mut h = Fnv::new();
